@@ -9,6 +9,7 @@ package main
 
 import (
 	"math/rand"
+	"time"
 )
 
 func genC13(r *rand.Rand, tier string, idx int) []string {
@@ -79,10 +80,11 @@ func genC13(r *rand.Rand, tier string, idx int) []string {
 
 func init() {
 	register(&Suite{
-		Name: "c13",
-		Rule: "checkpoint states of 0..9 keys (committed, optionally GC'd / reloaded); SaveRoot + checkpoint copy at levels -1..4 or as a (hash, weight) reference; 1..5 changes (new keys, changed values, unchanged re-writes, delete+re-add of identical content, deletes); commit at collapse levels -1..6; optional single GC pass; Rollback or RollbackTrie; afterwards reads, further changes, commits and GC passes, up to two rounds; non-trivial = at least 2 mutations and one commit",
-		Gen:  genC13,
-		Run:  runWmpt,
+		Name:        "c13",
+		Rule:        "checkpoint states of 0..9 keys (committed, optionally GC'd / reloaded); SaveRoot + checkpoint copy at levels -1..4 or as a (hash, weight) reference; 1..5 changes (new keys, changed values, unchanged re-writes, delete+re-add of identical content, deletes); commit at collapse levels -1..6; optional single GC pass; Rollback or RollbackTrie; afterwards reads, further changes, commits and GC passes, up to two rounds; non-trivial = at least 2 mutations and one commit",
+		Gen:         genC13,
+		Run:         runWmpt,
+		CaseTimeout: 3 * time.Minute, // a stalled machine must not look like a hang; a real hang still fails the case
 		DefaultN: func(tier string) int {
 			if tier == "thorough" {
 				return 80000
